@@ -141,3 +141,46 @@ def levAutomaton (q : Key) (d : Nat) : Automaton (List Nat) where
   canMatch := fun row => row.any (fun v => decide (v ≤ d))
 
 end TantivyModel.SSTable
+
+namespace TantivyModel.SSTable
+open TantivyModel
+variable {σ : Type}
+
+/-! ## the streamer as the code runs it: front-coded entries and an automaton state stack -/
+
+/-- states after each byte of `w`, starting after state `s` -/
+def pushStates (A : Automaton σ) : σ → Key → List σ
+  | _, [] => []
+  | s, b :: rest => A.step s b :: pushStates A (A.step s b) rest
+
+/-- the `(keep, suffix, value)` entries of one block as the delta reader yields them -/
+def deltaTriples {V} (prev : Key) : Assoc V → List (Nat × Key × V)
+  | [] => []
+  | e :: rest => (cpl prev e.1, e.1.drop (cpl prev e.1), e.2) :: deltaTriples e.1 rest
+
+/-- the entries of a sequence of blocks (previous key reset at every block start) -/
+def fileTriples {V} (bs : List (Assoc V)) : List (Nat × Key × V) := (bs.map (deltaTriples [])).flatten
+
+/-- mirrors: Streamer::advance literally: `key.truncate(keep); key.extend(suffix)`;
+`states.truncate(keep + 1)`, then one pushed state per suffix byte — BEFORE the bound tests, so the
+stack stays valid for entries skipped below the lower bound; `is_match` on the last state. `key`
+and `states` persist across block boundaries (the first entry of a block has `keep = 0`). -/
+def scanSearchDelta {V} (A : Automaton σ) (lo hi : Bound) :
+    Bool → Nat → Key → List σ → List (Nat × Key × V) → List (Nat × Key × V)
+  | _, _, _, _, [] => []
+  | passed, ord, key, states, (keep, suffix, v) :: rest =>
+    let key' := key.take keep ++ suffix
+    let base := states.take (keep + 1)
+    let states' := base ++ pushStates A (base.getLastD A.start) suffix
+    if !passed && !matchLo lo key' then scanSearchDelta A lo hi false (ord + 1) key' states' rest
+    else if !matchHi hi key' then []
+    else if A.accept (states'.getLastD A.start) then
+      (ord, key', v) :: scanSearchDelta A lo hi true (ord + 1) key' states' rest
+    else scanSearchDelta A lo hi true (ord + 1) key' states' rest
+
+/-- the automaton search through the front-coded entries and the state stack -/
+def Dict.searchDelta {V} (d : Dict V) (A : Automaton σ) (lo hi : Bound) : List (Nat × Key × V) :=
+  scanSearchDelta A lo hi false (d.firstTerm lo) [] [A.start]
+    (fileTriples ((d.searchBlocks A lo hi).map (·.entries)))
+
+end TantivyModel.SSTable
